@@ -41,6 +41,10 @@ def var_value(program, timing, vexpr, horizon=None):
     k = vexpr[0]
     if k == "horizon":
         return horizon
+    if k == "ind":
+        # an indicator whose expression is the start / end of one task: the variable behind an objective
+        e = dsl.decl_by_id(program)[vexpr[1]]["args"]["expression"]["$e"]
+        return var_value(program, timing, e, horizon)
     t = d[vexpr[1]]
     if not t[3]:
         return None
@@ -56,6 +60,8 @@ def var_value(program, timing, vexpr, horizon=None):
 def z3var(built, vexpr):
     if vexpr[0] == "horizon":
         return built.pb._horizon
+    if vexpr[0] == "ind":
+        return built.obj(vexpr[1])._indicator_variable
     o = built.obj(vexpr[1])
     return {"start": o._start, "end": o._end, "dur": getattr(o, "_duration", None)}[vexpr[0]]
 
@@ -74,6 +80,8 @@ def candidates_for(built, prims, leaves):
     """E2 candidates: one per admitted leaf, pinned on the primaries of `built`."""
     return [(repr(sorted(l.items(), key=repr)), ex.pins_of(prims, l)) for l in leaves]
 
+
+_RealZ3Solver = z3.Solver  # (the class as it is before psmc.ctl substitutes its controlled subclass)
 
 SIDE_OPS = ("other_problem", "describe", "print_assertions", "print_statistics", "print_solution")
 
@@ -114,6 +122,12 @@ def run_history(program, history, solver_kw=None, choices=None, leaves=None, unk
                         try:
                             solver.export_to_smt2(path)
                             o = {"ev": ev, "kind": "none", "bytes": os.path.getsize(path)}
+                            try:
+                                chk_ = _RealZ3Solver()
+                                chk_.add(z3.parse_smt2_file(path))
+                                o["export_sat"] = str(chk_.check())
+                            except Exception as e_:
+                                o["export_sat"] = f"unreadable: {type(e_).__name__}"
                         finally:
                             os.unlink(path)
                     elif ev[0] in SIDE_OPS:
@@ -177,6 +191,7 @@ class Protocol:
         self.returned = []
         self.has_model = False
         self.inited = False
+        self.dirty = False  # True once a call failed: the solver then holds clauses the model does not track
 
     def allowed(self):
         out = []
@@ -205,6 +220,11 @@ class Protocol:
         if ev[0] in ("initialize", "export"):
             if o["kind"] != "none":
                 return f"{ev[0]} -> {o['kind']} {o.get('exc', '')}"
+            if ev[0] == "export" and o.get("export_sat") is not None and not self.dirty:
+                # the file denotes what the solver would check next: satisfiable exactly when a schedule is left
+                want = "sat" if self.allowed() else "unsat"
+                if o["export_sat"] != want:
+                    return f"export is {o['export_sat']} although the solver's constraint system is {want}"
             if ev[0] == "initialize":
                 # an explicit initialize() builds a new z3 solver: earlier blocking clauses are not required to
                 # survive it (C12 quantifies over solve/find_another* only); validity is still required
